@@ -29,17 +29,17 @@ def universe(tier):
     if tier == "quick":
         return dict(
             lang_regs=[(n, p, k) for n in ("a", "A") for p in ("*.x", "f.*") for k in ("inst", "fact")]
-            + [("b", "*.x", "fact")],
+            + [("b", "*.x", "fact"), ("TEXTX", "*.x", "inst")],  # the last one collides with an entry-point language
             files=["f.x", "g.y"],
             mm_names=["a", "A", "b", "textx"],
-            gen_regs=[("a", "t"), ("A", "T"), ("any", "t")],
+            gen_regs=[("a", "t"), ("A", "T"), ("any", "t"), ("TextX", "DOT")],  # the last one collides with an entry-point generator
         )
     return dict(
         lang_regs=[(n, p, k) for n in ("a", "A") for p in ("*.x", "*.y", "f.*") for k in ("inst", "fact")]
-        + [("b", p, k) for p in ("*.x", "f.*") for k in ("inst", "fact")],
+        + [("b", p, k) for p in ("*.x", "f.*") for k in ("inst", "fact")] + [("TEXTX", "*.x", "inst")],
         files=["f.x", "g.y", "h.z"],
         mm_names=["a", "A", "b", "textx"],
-        gen_regs=[("a", "t"), ("A", "T"), ("a", "T"), ("any", "t"), ("ANY", "T")],
+        gen_regs=[("a", "t"), ("A", "T"), ("a", "T"), ("any", "t"), ("ANY", "T"), ("TextX", "DOT"), ("ANY", "dot")],
     )
 
 
